@@ -475,3 +475,30 @@ def name_deps(fn: ast.AST, seeds: Dict[str, Set[str]], source_of=None) -> Dict[s
                     if labs:
                         changed |= bind(b, labs)
     return dep
+
+
+def loop_index_and_bound(loop: ast.For):
+    """(index variable name, bound expression) of `for i in range(N)` / `for i, x in enumerate(xs)` (bound = len(xs)); else None"""
+    it = loop.iter
+    if isinstance(it, ast.Call) and isinstance(it.func, ast.Name):
+        if it.func.id == 'range' and len(it.args) == 1 and isinstance(loop.target, ast.Name):
+            return loop.target.id, it.args[0]
+        if it.func.id == 'enumerate' and it.args and isinstance(loop.target, ast.Tuple) and isinstance(loop.target.elts[0], ast.Name):
+            return loop.target.elts[0].id, ast.Call(func=ast.Name(id='len', ctx=ast.Load()), args=[it.args[0]], keywords=[])
+    return None
+
+
+def is_all_but_last_test(test: ast.AST, loop: ast.For) -> bool:
+    """does `test` contain the conjunct  <index> < <bound> - 1  for this loop (true on every iteration but the last)?"""
+    ib = loop_index_and_bound(loop)
+    if ib is None:
+        return False
+    idx, bound = ib
+    want = ast.dump(bound)
+    for atom, pol in conjuncts(test, True):
+        if pol and isinstance(atom, ast.Compare) and len(atom.ops) == 1 and isinstance(atom.ops[0], ast.Lt) \
+                and isinstance(atom.left, ast.Name) and atom.left.id == idx:
+            r = atom.comparators[0]
+            if isinstance(r, ast.BinOp) and isinstance(r.op, ast.Sub) and isinstance(r.right, ast.Constant) and r.right.value == 1 and ast.dump(r.left) == want:
+                return True
+    return False
